@@ -129,6 +129,15 @@ Section Accept.
   Qed.
 End Accept.
 
+(* the manager's entry point: never OutOfBounds, for either flag and any remainder *)
+Lemma accept_entry : forall gs a, Forall wf_group gs -> advertised (map wrap gs) = Some a ->
+  forall p adjust rem, il a <= p <= iu a -> (p <= el a \/ eu a <= p) ->
+  get_distribution_kind adjust (enforced (map pair_of gs)) p rem = DDistributed rem.
+Proof.
+  intros gs a W A p adjust rem R X. unfold get_distribution_kind.
+  now rewrite (accept gs a W A p adjust R X).
+Qed.
+
 (* ------------------------------------------------------------------ minimum powers *)
 Lemma neg_pmin : forall x y, - pmin x y == pmax (- x) (- y).
 Proof.
